@@ -1,14 +1,21 @@
 #!/bin/bash
-# seedcheck.sh [seed dir names...]  — applies each seeded change to /repo, runs the quick check of its property, expects exit 1 with a
-# VIOLATION line, and restores /repo (never run while /repo has uncommitted changes of its own).
+# seedcheck.sh [seed dir names...]  — applies each seeded change to a SCRATCH worktree of /repo (/tmp/vseed/repo, with a scratch copy
+# of the harness bound to it), runs the quick check of its property there and expects exit 1 with a VIOLATION line. /repo itself is
+# not touched, so this can run while other checks run against /repo. `seedcheck.sh --clean` removes the scratch area.
 cd /verif
-if [ -n "$(git -C /repo status --porcelain)" ]; then echo "/repo is not clean"; exit 2; fi
+S=/tmp/vseed
+if [ "$1" = "--clean" ]; then git -C /repo worktree remove --force $S/repo 2>/dev/null; rm -rf $S; git -C /repo worktree prune; exit 0; fi
+mkdir -p $S
+if [ ! -d $S/repo ]; then git -C /repo worktree add -q --detach $S/repo HEAD || exit 2; fi
+git -C $S/repo checkout -q --detach $(git -C /repo rev-parse HEAD) && git -C $S/repo checkout -q -- . || exit 2
+mkdir -p $S/harness; rsync -a --delete --exclude target /verif/harness/ $S/harness/
+sed -i "s#path = \"/repo\"#path = \"$S/repo\"#" $S/harness/Cargo.toml
 seeds=${@:-$(ls seeded)}
 for s in $seeds; do
   p=${s%%-*}
-  git -C /repo apply /verif/seeded/$s/patch.diff || { echo "$s: patch does not apply"; continue; }
-  out=$(bin/check $p --tier quick 2>&1); rc=$?
-  git -C /repo checkout -- .
+  git -C $S/repo apply /verif/seeded/$s/patch.diff || { echo "$s: patch does not apply"; continue; }
+  out=$(VERIF_HARNESS=$S/harness bin/check $p --tier quick 2>&1); rc=$?
+  git -C $S/repo checkout -q -- .
   f=$(echo "$out" | grep -m1 -o "formula [^ ]*" )
   if [ $rc -eq 1 ] && echo "$out" | grep -q "^VIOLATION property=$p "; then echo "$s: caught ($f)"; else echo "$s: MISSED rc=$rc"; fi
   git -C /verif checkout -- evidence/$p.json 2>/dev/null      # the evidence of a run on a changed tree is not kept
